@@ -881,6 +881,31 @@ fn bus_run(src: &mut Source, obs: &mut Observer, steps: usize) -> Result<(), Vio
     })
     .bus();
     let mut outs: Vec<_> = (0..n_out).map(|_| bus.send()).collect();
+    // an earlier history the steady state must not remember: a monitor output that lagged and was
+    // dropped caught-up (1), dropped while lagging (2), or came late and left at once (3)
+    let history = src.cfg("bus_history", 0, 3, |r| r.range(0, 3));
+    let lag = src.cfg("bus_history_lag", 1, 40, |r| r.range(1, 40)) as usize;
+    if history != 0 {
+        if history == 3 {
+            for o in outs.iter_mut() {
+                bb(o.next());
+            }
+        }
+        let mut monitor = bus.send();
+        if history != 3 {
+            for _ in 0..lag {
+                for o in outs.iter_mut() {
+                    bb(o.next());
+                }
+            }
+        }
+        if history == 1 {
+            while monitor.pending_frames() > 0 {
+                bb(monitor.next());
+            }
+        }
+        drop(monitor);
+    }
     // warm-up round
     for o in outs.iter_mut() {
         bb(o.next());
